@@ -13,7 +13,9 @@ type memStore struct {
 	byH     map[specqbft.Height]*qbftstorage.StoredInstance
 }
 
-func newMemStore() *memStore { return &memStore{byH: map[specqbft.Height]*qbftstorage.StoredInstance{}} }
+func newMemStore() *memStore {
+	return &memStore{byH: map[specqbft.Height]*qbftstorage.StoredInstance{}}
+}
 
 func (m *memStore) GetHighestInstance([]byte) (*qbftstorage.StoredInstance, error) {
 	return m.highest, nil
